@@ -10,6 +10,7 @@ namespace Calc.Exec
 @[extern "hypot"] opaque cHypot : Float → Float → Float
 @[extern "fmod"] opaque cFmod : Float → Float → Float
 @[extern "trunc"] opaque cTrunc : Float → Float
+@[extern "copysign"] opaque cCopysign : Float → Float → Float
 
 structure Cx where
   re : Float
@@ -20,7 +21,8 @@ namespace Cx
 
 def fInf : Float := Float.ofBits 0x7FF0000000000000
 def fNaN : Float := Float.ofBits 0x7FF8000000000000
-def signPos (x : Float) : Bool := (x.toBits >>> 63) == 0
+/-- `f64::is_sign_positive` (true sign bit, also of a NaN; `Float.toBits` canonicalises NaNs) -/
+def signPos (x : Float) : Bool := cCopysign 1.0 x > 0.0
 def isInfinite (x : Float) : Bool := x.isInf
 def isFinite (x : Float) : Bool := x.isFinite
 
